@@ -16,22 +16,54 @@ def _theorem_spans(path):
     return spans
 
 
-def run_trace(P, pid, tier, rng):
+def _regen(pid):
+    """run the real code of property `pid`'s kernels at the recording scalar and (re)write lean/Cgm/Gen/<pid>.lean"""
     ks = TRACE.get(pid) or []
-    res = {"obligations": len(ks), "discharged": 0, "kernels": [k for k, _ in ks], "failed": [], "nodes": 0}
-    if not ks:
-        return res
     inp = "".join(f"{k} {op}\n" for k, op in ks)
     p = core.subprocess.run([core.BIN_IMPL, "trace", pid], input=inp, stdout=core.subprocess.PIPE,
                             stderr=core.subprocess.PIPE, text=True, timeout=600)
     if p.returncode != 0:
         raise MachineryError(f"cgverif trace failed: {p.stderr[-2000:]}")
     gen = p.stdout
-    res["nodes"] = gen.count("\n  let n")
     os.makedirs(f"{LEAN}/Cgm/Gen", exist_ok=True)
     gpath = f"{LEAN}/Cgm/Gen/{pid}.lean"
     if not os.path.exists(gpath) or open(gpath).read() != gen:
         open(gpath, "w").write(gen)
+    return gen
+
+
+def _foreign_pids(pid):
+    """other properties whose generated kernels the T / E2E modules of `pid` use (transitively through Cgm.Trace.* and
+    Cgm.E2E.* imports): their Gen files are regenerated in the same run, so that every theorem checked for `pid` is
+    about the code as it is now"""
+    import glob as _glob
+    seen, todo, out = set(), [], set()
+    for d in ("Trace", "E2E"):
+        todo += [f for f in _glob.glob(f"{LEAN}/Cgm/{d}/{pid}*.lean")]
+    while todo:
+        f = todo.pop()
+        if f in seen or not os.path.exists(f):
+            continue
+        seen.add(f)
+        for m in re.finditer(r"^import Cgm\.(Gen|Trace|E2E)\.(C\d\d)(\w*)", open(f).read(), re.M):
+            if m.group(2) != pid:
+                out.add(m.group(2))
+            if m.group(1) != "Gen":
+                todo.append(f"{LEAN}/Cgm/{m.group(1)}/{m.group(2)}{m.group(3)}.lean")
+    return sorted(out)
+
+
+def run_trace(P, pid, tier, rng):
+    ks = TRACE.get(pid) or []
+    res = {"obligations": len(ks), "discharged": 0, "kernels": [k for k, _ in ks], "failed": [], "nodes": 0}
+    if not ks:
+        return res
+    gen = _regen(pid)
+    res["nodes"] = gen.count("\n  let n")
+    foreign = _foreign_pids(pid)
+    for fp in foreign:
+        _regen(fp)
+    res["foreign_gen"] = foreign
     failed = {}
     for m in re.finditer(r"-- TRACE-ERROR (\S+) (.*)", gen):
         failed[m.group(1)] = f"T:{m.group(1)}: the real code could not be traced on the shadow input ({m.group(2)})"
@@ -70,6 +102,15 @@ def run_trace(P, pid, tier, rng):
                     hit = True
                     failed.setdefault("E2E." + owner, f"T:E2E.{owner}: the end-to-end theorem `Cg.E2E.{pid}.{owner}` no longer checks "
                                                       f"against the definitions regenerated from the source (Cgm/E2E/{pid}.lean:{ln})")
+            # an end-to-end theorem of this property that composes kernels of another property whose obligations no
+            # longer check against the regenerated definitions
+            for m in re.finditer(r"error: (?:\./)?Cgm/(Gen|Trace|E2E)/(C\d\d)(\w*)\.lean:(\d+):", out_e):
+                if m.group(2) != pid:
+                    hit = True
+                    failed.setdefault("E2E.via." + m.group(2) + m.group(3),
+                                      f"T:E2E: end-to-end theorems of {pid} use kernels of {m.group(2)} "
+                                      f"(Cgm/{m.group(1)}/{m.group(2)}{m.group(3)}.lean:{m.group(4)}) whose obligations no longer check "
+                                      f"against the definitions regenerated from the source")
             if not hit:
                 raise MachineryError(f"lake build Cgm.E2E.{pid} failed for another reason:\n{out_e[-3000:]}")
         else:
